@@ -212,6 +212,76 @@ theorem mll_stat_eq_doc (lg : ℝ → ℝ) (K : Nat) (sims : List Grid) (obs : G
 example : (mllMagnitudeTest (α := ℝ) (fun z => z) 2 [[[2, 1]]] [[1, 1]] [[2, 0]]).status = .normal :=
   (mll_stat_eq_doc _ 2 _ _ _ (by decide)).2.1
 
+/-! ## observed catalogs that were not cut to the magnitude range -/
+
+/-- C10 number test with an observed catalog holding `nOut` further events outside the magnitude range (below the
+    first edge): N_obs is the number of events OF THE CATALOG, the distribution the sizes of the synthetic
+    catalogs, the quantiles the C09 probabilities at that N_obs. -/
+theorem ntest_counts_all_events (sims : List Grid) (obs : Grid) (nOut : Nat) (h : sims ≠ []) :
+    (numberTestOut sims obs nOut).distribution = sims.map eventCount ∧
+    (numberTestOut sims obs nOut).observed = eventCount obs + nOut ∧
+    (numberTestOut sims obs nOut).quantile =
+      (some ((sims.map eventCount).countP (fun n => decide (eventCount obs + nOut ≤ n)), sims.length),
+       some ((sims.map eventCount).countP (fun n => decide (n ≤ eventCount obs + nOut)), sims.length)) ∧
+    numberTestOut sims obs 0 = numberTest sims obs := by
+  refine ⟨rfl, rfl, ?_, by simp [numberTestOut, numberTest]⟩
+  unfold numberTestOut
+  simp only
+  rw [Ecdf.quantiles_eq _ _ (by simpa using h)]
+  simp only [Ecdf.cntGE, Ecdf.cntLE, List.countP_map, List.length_map]
+  congr 3
+  · apply List.countP_congr; intro n _; simp only [Function.comp, decide_eq_true_eq]; exact_mod_cast Iff.rfl
+  · apply List.countP_congr; intro n _; simp only [Function.comp, decide_eq_true_eq]; exact_mod_cast Iff.rfl
+
+example : (numberTestOut [[[2, 0]], [[0, 0]], [[3, 0]]] [[1, 0]] 2).quantile = (some (1, 3), some (3, 3)) := by
+  rw [(ntest_counts_all_events _ _ _ (by simp)).2.2.1]; decide
+
+/-- C10 magnitude tests and events outside the magnitude range: as long as the observed catalog has an event
+    INSIDE the range, the `nOut` events below the first magnitude edge change nothing — status, observed
+    statistic, test distribution and quantiles are those of the catalog cut to the range, so by `m_stat_eq_doc`,
+    `rm_stat_eq_doc`, `mll_stat_eq_doc` the N_obs of the documented statistics is Σ_k Ω(k), the number of observed
+    events in the histogram ("the histograms are normalised so that the total number of events across all bins
+    is equal to the observed number"), not `event_count`. -/
+theorem mag_tests_ignore_out_of_range (lg : ℝ → ℝ) (C K : Nat) (sims : List Grid) (obs : Grid)
+    (draws : List (List Nat)) (nOut : Nat) (hobs : eventCount obs ≠ 0) :
+    magnitudeTestOut (α := ℝ) C K sims obs nOut = magnitudeTest C K sims obs ∧
+    resampledMagnitudeTestOut (α := ℝ) K sims obs draws nOut = resampledMagnitudeTest K sims obs draws ∧
+    mllMagnitudeTestOut (α := ℝ) lg K sims obs draws nOut = mllMagnitudeTest lg K sims obs draws := by
+  refine ⟨?_, ?_, ?_⟩
+  · simp [magnitudeTestOut, magnitudeTest, magnitudeCore, hobs]
+  · simp [resampledMagnitudeTestOut, resampledMagnitudeTest, resampledCore, hobs]
+  · simp [mllMagnitudeTestOut, mllMagnitudeTest, mllCore, hobs]
+
+/-- without such events the `…Out` models are the models of the tests (every observed catalog, also the empty one) -/
+theorem mag_tests_out_zero (lg : ℝ → ℝ) (C K : Nat) (sims : List Grid) (obs : Grid) (draws : List (List Nat)) :
+    magnitudeTestOut (α := ℝ) C K sims obs 0 = magnitudeTest C K sims obs ∧
+    resampledMagnitudeTestOut (α := ℝ) K sims obs draws 0 = resampledMagnitudeTest K sims obs draws ∧
+    mllMagnitudeTestOut (α := ℝ) lg K sims obs draws 0 = mllMagnitudeTest lg K sims obs draws := by
+  refine ⟨?_, ?_, ?_⟩
+  · by_cases h : eventCount obs = 0 <;> simp [magnitudeTestOut, magnitudeTest, magnitudeCore, h]
+  · by_cases h : eventCount obs = 0 <;>
+      simp [resampledMagnitudeTestOut, resampledMagnitudeTest, resampledCore, h]
+  · by_cases h : eventCount obs = 0 <;> simp [mllMagnitudeTestOut, mllMagnitudeTest, mllCore, h]
+
+/-- the documented observed statistic with two sub-threshold events next to two events in range: N_obs = 2 -/
+example : (magnitudeTestOut (α := ℝ) 1 2 [[[2, 1]], [[0, 0]]] [[1, 1]] 2).observed =
+    some (.fin (docDobs (unionHist 2 [[[2, 1]], [[0, 0]]]) 2 [1, 1])) := by
+  rw [(mag_tests_ignore_out_of_range (fun z => z) 1 2 _ _ [] 2 (by decide)).1]
+  exact (m_stat_eq_doc 1 2 [[[2, 1]], [[0, 0]]] [[1, 1]] (by simp) (by decide) (by decide)).2.1
+
+/-- an observed catalog without any event is still signalled, with or without the `…Out` bookkeeping -/
+theorem empty_obs_signalled_out (lg : ℝ → ℝ) (C K : Nat) (sims : List Grid) (obs : Grid) (draws : List (List Nat))
+    (h : eventCount obs = 0) :
+    ∀ r ∈ [magnitudeTestOut (α := ℝ) C K sims obs 0, resampledMagnitudeTestOut K sims obs draws 0,
+           mllMagnitudeTestOut lg K sims obs draws 0],
+      r.status = .notValid ∧ r.observed = none ∧ r.quantile = .pair none none ∧ r.distribution = [] := by
+  intro r hr
+  simp only [List.mem_cons, List.not_mem_nil, or_false] at hr
+  rcases hr with rfl | rfl | rfl
+  · simp [magnitudeTestOut, h, emptyObsResult]
+  · simp [resampledMagnitudeTestOut, h, emptyObsResult]
+  · simp [mllMagnitudeTestOut, h, emptyObsResult]
+
 /-! ## explicit signalling -/
 
 /-- C10: an empty observed catalog is signalled explicitly by every test whose statistic is undefined:
